@@ -38,6 +38,9 @@ InitState(t, d) ==
   [tags |-> TRUE, typ |-> t, depth |-> d, dc |-> TRUE, rx |-> TRUE,
    isParam |-> TRUE, rg |-> TRUE, dtype |-> "f32", val |-> "exact"]
 
+\* "Transform" stands for ANY library transform (apply_transform with a no-op backend, simulate_fp8, simulate_format, unit_scale,
+\* track_scales, compile): each deep-copies the module and must change nothing else of the parameter -- in particular not rg.
+\* The harness binds it to each of them by name; track_scales / compile are documented as final-only and never followed by another.
 \* Named deviation of the code from the ideal: a transformed module carries a
 \* local closure as its forward and cannot be pickled, so module-level pickling
 \* is not enabled after a Transform (parameter-level pickling still is).
